@@ -96,6 +96,15 @@ def special_cases():
                 'bunch': attempt(lambda: leg.bunch()[0]), 'sort': attempt(lambda: leg.sort()[0]),
                 'map_blocks': attempt(lambda: charges._map_blocks(np.array([0] * n, dtype=np.intp))),
                 'make_stride': attempt(lambda: charges._make_stride([2] * max(n, 1), True))}
+    # "or the same class of error": charge values outside [0, mod) on a Z_N charge
+    for mod, vals in (([3], [0, 1, 2, 3]), ([3], [-1, 0]), ([2, 1], [[2, 5], [0, -7]]), ([4], [4])):
+        chm = charges.ChargeInfo(mod)
+        q = np.array(vals, dtype=np.int64).reshape(-1, len(mod))
+        out[f'invalid_charges_mod{mod}_{np.ravel(vals).tolist()}|0|0'] = {
+            'check_valid': attempt(lambda: bool(chm.check_valid(q))),
+            'LegCharge.from_qflat': attempt(lambda: (charges.LegCharge.from_qflat(chm, q).test_sanity(), 'ok')[1]),
+            'LegCharge.from_qind': attempt(lambda: (charges.LegCharge.from_qind(chm, np.arange(len(q) + 1), q).test_sanity(), 'ok')[1]),
+            'check_valid(make_valid)': attempt(lambda: bool(chm.check_valid(chm.make_valid(q))))}
     return out
 
 
